@@ -284,3 +284,74 @@ Proof.
   exists [0; 0; 0], [0; 1; 2]%nat, [0; 2; 3]%nat, [qc 1 2; qc 1 2; qc 1 1], 3%nat, (0%nat, [([2%nat], [qc 1 1])]), 2%nat.
   split; [unfold csr_row_ok; simpl; lia|]. split; [simpl; lia|]. vm_compute. discriminate.
 Qed.
+
+(* ---------- the step, pointwise ---------- *)
+
+(* linear look-up of a column in the row (the specification of what searchsorted + equality test compute) *)
+Fixpoint find_index (l : list nat) (x : nat) : option nat :=
+  match l with
+  | [] => None
+  | y :: t => if Nat.eqb y x then Some 0%nat else option_map S (find_index t x)
+  end.
+
+Lemma find_index_Some : forall l x k, find_index l x = Some k -> (k < length l)%nat /\ nth k l 0%nat = x.
+Proof.
+  induction l; intros x k H; simpl in H; [discriminate|].
+  destruct (Nat.eqb_spec a x).
+  - inversion H; subst. simpl. split; [lia | reflexivity].
+  - destruct (find_index l x) eqn:E; simpl in H; [|discriminate]. inversion H; subst.
+    destruct (IHl x n0 E). simpl. split; [lia | assumption].
+Qed.
+
+Lemma find_index_None : forall l x, find_index l x = None -> forall k, (k < length l)%nat -> nth k l 0%nat <> x.
+Proof.
+  induction l; intros x H k Hk; simpl in *; [lia|].
+  destruct (Nat.eqb_spec a x); [discriminate|].
+  destruct (find_index l x) eqn:E; simpl in H; [discriminate|].
+  destruct k; [assumption|]. apply IHl; [exact E | lia].
+Qed.
+
+(* E-step of one slot: kernel weight x current cell value of (own row, context column) if that cell exists, else 0 *)
+Theorem em_slot_spec : forall indices (prior : list Qc) lo hi n w ctx (k : Qc),
+  sorted_lt (slice lo hi indices) ->
+  snd (@em_slot QcK true indices prior lo hi n w ctx k) =
+    (if @gtb0 QcK k
+     then match find_index (slice lo hi indices) (ctx + w * n) with
+          | Some j => k * nth (lo + j) prior 0
+          | None => 0
+          end
+     else 0) /\
+  (forall j, @gtb0 QcK k = true -> find_index (slice lo hi indices) (ctx + w * n) = Some j ->
+             fst (@em_slot QcK true indices prior lo hi n w ctx k) = j).
+Proof.
+  intros indices prior lo hi n w ctx k Hs. unfold em_slot.
+  destruct (@gtb0 QcK k) eqn:Ek; [|split; [reflexivity | intros; discriminate]]. cbv zeta.
+  set (col_ind := slice lo hi indices) in *. set (target := (ctx + w * n)%nat).
+  destruct (find_index col_ind target) as [j|] eqn:Ef.
+  - destruct (find_index_Some _ _ _ Ef) as [Hj Hn].
+    assert (Hss : searchsorted col_ind target = j) by (rewrite <- Hn; apply searchsorted_found; assumption).
+    rewrite Hss. destruct (Nat.ltb_spec j (length col_ind)); [|lia]. rewrite Hn, Nat.eqb_refl. simpl.
+    split; [reflexivity | intros j' _ E; inversion E; reflexivity].
+  - split; [|intros; discriminate].
+    destruct ((searchsorted col_ind target <? length col_ind)%nat) eqn:E1; simpl; [|reflexivity].
+    apply Nat.ltb_lt in E1. pose proof (find_index_None _ _ Ef _ E1) as Hne.
+    destruct (Nat.eqb_spec (nth (searchsorted col_ind target) col_ind 0%nat) target); [contradiction | reflexivity].
+Qed.
+
+(* partial M-step: cell j receives exactly the positive normalised shares of the slots that point at it *)
+Theorem em_write_nth : forall lo (slots : list (nat * Qc)) (post : list Qc) j, (j < length post)%nat ->
+  nth j (@em_write QcK lo post slots) 0 =
+  nth j post 0 + qsum (map (fun s : nat * Qc => if @gtb0 QcK (snd s) && Nat.eqb (lo + fst s) j then snd s else 0) slots).
+Proof.
+  intros lo slots. unfold em_write. induction slots as [|s slots IH]; intros post j Hj; cbn [map fold_left].
+  - replace (qsum []) with 0 by reflexivity. simpl T. ring.
+  - rewrite qsum_cons.
+    match goal with |- context [fold_left _ _ (if ?c then _ else _)] => destruct c eqn:E end.
+    + rewrite IH by (rewrite (add_at_length QcK); assumption).
+      replace (@gtb0 QcK (snd s)) with true by (symmetry; exact E). cbn [andb].
+      destruct (Nat.eqb_spec (lo + fst s) j) as [Heq|Hne].
+      * subst j. rewrite (add_at_nth_same QcK) by assumption. cbn [add QcK]. change (T QcK) with Qc. ring.
+      * rewrite (add_at_nth_other QcK) by (intros X; apply Hne; symmetry; exact X). change (T QcK) with Qc. ring.
+    + rewrite IH by assumption.
+      replace (@gtb0 QcK (snd s)) with false by (symmetry; exact E). cbn [andb]. change (T QcK) with Qc. ring.
+Qed.
